@@ -106,6 +106,7 @@ package witness
 //@   ensures[C10.s]  err == ErrCheckpointStale ==> oldSize != pS
 //@   ensures[C10.s]  err != nil && !isSentinel(err) ==> out == nil
 //@   ensures[C10.i,C04.i] committed ==> parsesAs(set_arg, L.Origin, witV())
+//@   ensures[C10.n,C04.n] committed ==> set_arg != nil
 //@   ensures[C09.u]  !fault && V == V_StoredUnreadable ==> out == nil && err != nil && !isSentinel(err)
 //@
 //@   // ---- honest progress (C08): what is stored always re-opens under the log's key; an honest step is accepted
